@@ -41,6 +41,10 @@ CHECKS = {
              text="Bounded-exhaustive: 2-3 genes of all relevant gene types and expression levels, both allow_mutations settings, approval callbacks approving none / some / value-1 / all changes, all sequences to depth 6 (quick, node-capped) / 8 (thorough) over mutate, rollback, re-add, silence/activate/set_expression, replicate with every partial mutation map and express with every context, on parent and child; TLC evaluates Immutable, HashFollowsValues, RefusalsLogged, ParentUntouched, ChildDiffers, ExpressExact, RollbackRestores on every edge.",
              note="Trusted: TLC/SANY, observation through export()/get_hash()/get_statistics()/express(). A refused re-add is not required to be logged (weakest reading, DESIGN.md section 6).",
              ref="DESIGN.md section 4 C20"),
+ "C17": dict(technique="TLA+ spec (Surveillance.tla) model-checked with TLC; real TCell and real ImmuneSystem explored by BFS and judged by TLC (Trace_Surveillance.tla) with ground-truth monitors (anomaly streak, remembered threats) carried by TLC; RegulatoryTCell.evaluate table and self-tolerance windows judged by TLC as flat records",
+             text="Bounded-exhaustive: inspection histories to depth 6 (quick) / 8 (thorough) over fingerprints placed below / at / inside / at / above every trained bound (math.nextafter around the real bounds), hash changes, all canary classes, manual flags, resets and false-alarm resets up to anergy, thresholds 1..3, on bare TCells and on the integrated ImmuneSystem with memory and all tolerance-rule severities; TLC evaluates TwoSignals, InsideIsClean, AnergicSilent, OneStepOnly, CriticalUntouched and CheckMatchesBounds on every edge; the evaluate() table is complete for producible responses; self-tolerance is sampled over seeded observation windows.",
+             note="Trusted: TLC/SANY; the harness places fingerprints relative to the real bounds and TLC checks that profile.check reports exactly those bounds; tolerance table restricted to responses a watcher or its memory can produce (DESIGN.md section 6).",
+             ref="DESIGN.md section 4 C17"),
 }
 NOT_APPLICABLE = []
 
